@@ -40,3 +40,46 @@ package ed25519
 //@   requires len(s) >= 32
 //@   modifies nothing
 //@   ensures result == (!decodable(bytesOf(s[0:32])) || isneutral(smul8(decpt(bytesOf(s[0:32])))))
+
+// ---------------- verification ----------------
+
+// dom2(f, c) = "SigEd25519 no Ed25519 collisions" || f || len(c) || c  (RFC 8032), empty for plain Ed25519.
+// a point has small order iff 8 times it is the identity
+//@ spec small(b) = isneutral(smul8(decpt(b)))
+// challenge h = SHA-512(dom2(f,c) || R || A || M) mod L over the encodings exactly as supplied;
+// cb, cl are the context bytes and the context length
+//@ spec hchal(f, cb, cl, rb, ab, m) = ite(f == fPure, lea(sha512(bcat(rb, ab, m)), 0, 64) % L, lea(sha512(bcat(bconst("SigEd25519 no Ed25519 collisions"), bcons(f, bcons(cl, bnil())), cb, rb, ab, m)), 0, 64) % L)
+
+// The documented acceptance predicate: 64-byte signature, S < L, key and R decodable, no small
+// order unless ZIP-215, and [8]([S]B - [h]A - R) = O, written as [8]( ([h](-A) + [S]B) - R ).
+//@ spec vspec(pk, m, sig, f, cb, cl, zip) = len(sig) == 64 && le(sig[32:64]) < L && decodable(bytesOf(pk[0:32])) && decodable(bytesOf(sig[0:32])) && (zip || (!small(bytesOf(pk[0:32])) && !small(bytesOf(sig[0:32])))) && isneutral(smul8(psub(lc2(pneg(decpt(bytesOf(pk[0:32]))), hchal(f, cb, cl, bytesOf(sig[0:32]), bytesOf(pk[0:32]), bytesOf(m)), le(sig[32:64])), decpt(bytesOf(sig[0:32])))))
+
+//@ func verify(publicKey, message, sig, f, c, zip215)
+//@   inline writeDom2
+//@   panics len(publicKey) != 32
+//@   requires f == fPure || len(c) <= 255
+//@   modifies nothing
+//@   ensures result == vspec(publicKey, message, sig, f, bytesOf(c), len(c), zip215)
+
+//@ func Verify(publicKey, message, sig)
+//@   panics len(publicKey) != 32
+//@   modifies nothing
+//@   ensures result == vspec(publicKey, message, sig, fPure, bnil(), 0, false)
+
+// variant selected by the options: pre-hashed if Hash is SHA-512, ctx if the context is non-empty, else pure
+//@ spec variant(opts) = ite(opts.Hash == 7, fPh, ite(len(opts.Context) > 0, fCtx, fPure))
+//@ spec optsok(opts, message) = len(opts.Context) <= 255 && (opts.Hash == 0 || (opts.Hash == 7 && len(message) == 64))
+
+//@ func verifyWithOptionsNoPanic(publicKey, message, sig, opts)
+//@   modifies nothing
+//@   ensures (result1 == nil) == (optsok(*opts, message) && len(publicKey) == 32)
+//@   ensures (result1 == nil && len(opts.Context) == 0) ==> result0 == vspec(publicKey, message, sig, variant(*opts), bnil(), 0, opts.ZIP215Verify)
+//@   ensures (result1 == nil && len(opts.Context) > 0) ==> result0 == vspec(publicKey, message, sig, variant(*opts), bytesOf(opts.Context), len(opts.Context), opts.ZIP215Verify)
+//@   ensures result1 != nil ==> result0 == false
+
+// panics exactly for a wrong-length key, an over-long context, a wrong pre-hash length or an unsupported hash
+//@ func VerifyWithOptions(publicKey, message, sig, opts)
+//@   panics !(optsok(*opts, message) && len(publicKey) == 32)
+//@   modifies nothing
+//@   ensures len(opts.Context) == 0 ==> result == vspec(publicKey, message, sig, variant(*opts), bnil(), 0, opts.ZIP215Verify)
+//@   ensures len(opts.Context) > 0 ==> result == vspec(publicKey, message, sig, variant(*opts), bytesOf(opts.Context), len(opts.Context), opts.ZIP215Verify)
